@@ -501,6 +501,8 @@ def lean_obligations(ctx):
     """build the property's Lean module, audit sources and axioms — one critical section, so that a concurrently
     running check (which may regenerate Generated.lean from another tree) cannot interleave with it"""
     with infra.Lock("lake"):
+        import refine
+        refine.recover_journal()      # proof files a killed localisation pass may have left edited
         # re-establish Generated.lean for THIS tree inside the critical section (another check may have rewritten it)
         if getattr(ctx, "generated_text", None) is not None:
             gp = os.path.join(LEAN, "RdsModel", "Generated.lean")
